@@ -10,8 +10,8 @@ type StackN<const N: usize, const S: usize> = any_vec::mem::StackN<N, S>;
 
 #[cfg(feature = "lib_alloc")]
 anyvec_pbt::configs! {
-    Tr3_Multi:    Tr3,    Multi, dyn Cloneable, G_LAYOUT | G_CORE;
-    Tr160_Multi:  Tr160,  Multi, dyn Cloneable, G_LAYOUT | G_CORE;
+    Tr3_Multi:    Tr3,    Multi, dyn Cloneable, G_LAYOUT | G_CORE | G_FAULT;
+    Tr160_Multi:  Tr160,  Multi, dyn Cloneable, G_LAYOUT | G_CORE | G_FAULT;
     Pl24_Multi:   Pl24,   Multi, dyn Cloneable, G_LAYOUT;
     Tr1_Heap:     Tr1,    Heap,   dyn Cloneable, G_RAW;
     Pl3_Empty:    Pl3,    any_vec::mem::Empty, dyn Cloneable + Send + Sync, G_RAW;
